@@ -202,3 +202,8 @@ PROPS['C14']['quick'] = [('merge:concurrent', 3000), ('fs:conc', 1500)]
 PROPS['C15']['quick'] = [('fs:crash', 1000)]
 PROPS['C16']['quick'] = [('fs:spec', 8000)]
 PROPS['C19']['quick'] = [('corrupt:general', 8000)]
+
+# C06 also over the real FileSystemDataStore (as DataStore, with an atomic MetaStore) on simos.
+PROPS['C06']['quick'] = [('life:general', 4000), ('life:fsds', 1500), ('life:enum', 60, {'SIM_ENUM': '1'})]
+PROPS['C06']['thorough'] = [('life:general', 200000), ('life:fsds', 60000), ('life:enum', 4000, {'SIM_ENUM': '1'})]
+PROPS['C06']['rule'] += '; life:fsds runs the same workload with the real FileSystemDataStore over simos as DataStore (os-call faults) next to an atomic MetaStore'
